@@ -23,7 +23,7 @@ def obligations(tier):
                      encodes=["ABT_thread_join", "thread_join", "thread_join_futexwait", "thread_join_yield_thread", "thread_join_busywait", "ABTI_ythread_suspend_join", "ABTI_ythread_callback_suspend_join", "ABTI_ythread_atomic_get_joiner", "ABTI_ythread_resume_joiner", "ABTI_ythread_callback_exit", "ABTI_thread_terminate", "ABTD_futex_suspend", "ABTD_futex_resume"],
                      bounds="1 joiner, 1 target, <=1 environment step per scheduling point, <=3 while parked; wait loops cut after 2 rounds", symbolic="when the join is issued relative to the target's exit (before/during/after), placement of both exit steps",
                      timeout=900 if tier == "thorough" else 250))
-    o += deepen([x for x in o if x.hooks], tier)
+    # nesting depth 2 adds nothing here: the only environment agent (the target) is busy while one of its steps runs
     return o
 
 MANIFEST_ENTRY = {
